@@ -168,7 +168,9 @@ def run(tier, seed):
     seen = {}
     for variant, seg, r in problems:
         if r["status"] == "exit-from-library":
-            key = "exit-from-library"
+            cmd_ = (r["ev"].get("command") or "").split(" ")
+            fmt_ = docs.FMTNAME.get(int(cmd_[1]), cmd_[1]) if len(cmd_) > 1 and cmd_[1].isdigit() else "?"
+            key = "exit-from-library:code%s:%s" % (r["ev"].get("code"), "html-writer" if fmt_ in ("html", "htmlassets", "epub", "textbundle", "bundlezip") else fmt_)
             if key not in seen:
                 seen[key] = 1; chk.report(key, "[%s build] the library called exit() during a call (caught by the harness): event %d of its segment, %s" % (variant, r["idx"], json.dumps(r["ev"])), dict(ev=r["ev"], variant=variant))
             continue
